@@ -462,7 +462,7 @@ func c13Verdict(c c13Case) string {
 // takes 3 s to give up reading the body it only wants for its error message).
 func TestC13Silent(t *testing.T) {
 	rec := evid.For("C13")
-	rapid.Check(t, func(rt *rapid.T) {
+	checkProp(t, func(rt *rapid.T) {
 		c := genC13(rt)
 		if c13Verdict(c) != "bad" {
 			// make it a response that is wrong in exactly the drawn way
@@ -501,7 +501,7 @@ func TestC13Silent(t *testing.T) {
 func TestC13(t *testing.T) {
 	rec := evid.For("C13")
 	rec.Rule = "rapid draws DialOptions (URL scheme ws/wss/http/https, caller headers incl. ones the library must override, Host override, 0-3 subprotocols, 3 compression modes) observed by a custom RoundTripper, in a quarter of the cases after the same process has accepted a connection with a drawn (mode, offer), and a server response built from a valid one by 0-2 mutations over status {101,200,204,301,400,426,500,100,102}, Connection/Upgrade variants, accept key {correct, for another key, missing, case-changed, truncated, differing only in the two unused bits of the last base64 character, unpadded, URL alphabet or doubled}, subprotocol {none, requested, other case, unrequested, empty}, 17 extension header variants. Independent predicates check the request and decide whether the response may be accepted (ok / bad / either). Keys of 200 Dials are pairwise distinct; thorough re-runs that in a second process and requires disjoint sets. Non-trivial: a response valid in all but one respect, or valid with multi-token headers. distinct = hash(options, response)."
-	rapid.Check(t, func(rt *rapid.T) {
+	checkProp(t, func(rt *rapid.T) {
 		c := genC13(rt)
 		hdrBefore := c.Header.Clone()
 		if rapid.IntRange(0, 3).Draw(rt, "history") == 0 {
